@@ -28,8 +28,10 @@ SchemaSeq == LET cs == SetToSortSeq(Cols(rows), <) IN
 
 EmitQueries == rows = <<>> =>
    PrintT(ToJson([tag |-> "queries", qs |-> [i \in DOMAIN QSeq |-> [e |-> QSeq[i][1], gb |-> QSeq[i][2]]]]))
-EmitDS == PrintT(ToJson([tag |-> "ds",
-                         rows |-> [i \in DOMAIN rows |-> RowPairs(rows[i])],
-                         schema |-> SchemaSeq,
-                         res |-> [i \in DOMAIN QSeq |-> ExecSpec(rows, QSeq[i][1], QSeq[i][2])]]))
+DSLine(rs) == ToJson([tag |-> "ds",
+                      rows |-> [i \in DOMAIN rs |-> RowPairs(rs[i])],
+                      schema |-> LET cs == SetToSortSeq(Cols(rs), <) IN [i \in DOMAIN cs |-> <<cs[i], SetToSortSeq(Vals(rs, cs[i]), <)>>],
+                      res |-> [i \in DOMAIN QSeq |-> ExecSpec(rs, QSeq[i][1], QSeq[i][2])]])
+\* round trip: the same dataset again with two trailing rows that have no columns (the row universe counts them)
+EmitDS == PrintT(DSLine(rows)) /\ (GenSel = "roundtrip" => PrintT(DSLine(rows \o << <<>>, <<>> >>)))
 =============================================================================
